@@ -10,7 +10,7 @@
    proved; they are covered by the implementation-side oracle (trichotomy,
    transitivity, derived operators, sort stability over the whole value pool)
    and by the correspondence of [rless] with the implementation. *)
-From Arrai Require Import Base.Val Spec.SetAlg Eval.Interp Proofs.ValOrder Rep.Less Gen.Kinds Proofs.LessP.
+From Arrai Require Import Base.Val Spec.SetAlg Eval.Interp Proofs.ValOrder Rep.Less Gen.Kinds Proofs.LessP Proofs.SortP.
 
 (* the bundle: reflexive-Eq, Eq is identity, antisymmetric, transitive *)
 Theorem C06_kind_tiebreak_is_total_order :
@@ -50,6 +50,28 @@ Theorem C06_trichotomy_and_transitivity_spec :
                 (vcmp a b = Lt -> vcmp b c = Lt -> vcmp a c = Lt).
 Proof. exact vcmp_ordR. Qed.
 Print Assumptions C06_trichotomy_and_transitivity_spec.
+
+(* sorting by any comparison with the order laws is canonical: the same members - presented in any
+   order, with any repetitions - always yield the same strictly increasing sequence *)
+Theorem C06_sorting_same_members_same_sequence :
+  forall (A : Type) (cmp : A -> A -> comparison) (Q : A -> Prop),
+    (forall x y z, Q x -> Q y -> Q z -> ordR cmp x y z) ->
+    forall l l', Forall Q l -> Forall Q l' -> (forall x, In x l <-> In x l') -> gsort cmp l = gsort cmp l'.
+Proof. exact @gsort_same_members. Qed.
+Print Assumptions C06_sorting_same_members_same_sequence.
+
+Theorem C06_sorted_sequence_strictly_increasing :
+  forall (A : Type) (cmp : A -> A -> comparison) (Q : A -> Prop),
+    (forall x y z, Q x -> Q y -> Q z -> ordR cmp x y z) ->
+    forall l, Forall Q l -> gsorted cmp (gsort cmp l) /\ NoDup (gsort cmp l).
+Proof. exact @gsort_strictly_increasing. Qed.
+Print Assumptions C06_sorted_sequence_strictly_increasing.
+
+(* ... in particular for the specification order (orderby ., printed member order) *)
+Theorem C06_spec_sort_depends_on_members_only :
+  forall l l', (forall x, In x l <-> In x l') -> vsort l = vsort l'.
+Proof. exact vsort_same_members. Qed.
+Print Assumptions C06_spec_sort_depends_on_members_only.
 
 (* non-vacuity / probes of the property text on the model of the Go order *)
 Example C06_probe :
